@@ -34,7 +34,10 @@ var sets = map[string]set{
 	"dil_arith":  {pkgDir: "dilithium", hook: "dil_arith.go.txt"},
 	"dil_pack":   {pkgDir: "dilithium", hook: "dil_pack.go.txt"},
 	"dil_sample": {pkgDir: "dilithium", hook: "dil_sample.go.txt"},
-	"misc_codec": {pkgDir: "misc", hook: "misc_codec.go.txt"},
+	// optional sets: vector-level helpers (a tree that reshapes them still gets the core domains, see ./check)
+	"dil_sample_vec": {pkgDir: "dilithium", hook: "dil_sample_vec.go.txt"},
+	"dil_arith_vec":  {pkgDir: "dilithium", hook: "dil_arith_vec.go.txt"},
+	"misc_codec":     {pkgDir: "misc", hook: "misc_codec.go.txt"},
 }
 
 func die(f string, a ...any) {
